@@ -113,28 +113,7 @@ theorem stored_after (H : List Op) (st : State) (f : Frag) (t : Int) (h : Prov H
   rcases insert_list_mem _ f t g hg with e | hm
   · subst e
     exact ⟨h2, List.mem_append_right _ (by simp [offered])⟩
-  · obtain ⟨a, b⟩ := flOr_list_mem st g.key H h g (by
-      have := flOr_list_mem st f.key H h g hm
-      -- g was offered under f.key, so its key is f.key; reuse the same entry
-      exact (by
-        have hk : g.key = f.key := by
-          have hmem := this.2
-          clear this hm hg
-          induction H with
-          | nil => cases hmem
-          | cons op H ih =>
-            cases op with
-            | inp x _ =>
-              simp only [offered] at hmem
-              split at hmem
-              · rename_i hx
-                rcases List.mem_cons.1 hmem with e | hmem'
-                · rw [e]; exact hx
-                · exact ih (fun p hp => by cases hp) hmem' |>.elim
-              · exact ih (fun p hp => by cases hp) hmem' |>.elim
-            | discard _ => exact ih (fun p hp => by cases hp) hmem |>.elim
-        rw [hk]; exact hm))
-    have := flOr_list_mem st f.key H h g hm
+  · have := flOr_list_mem st f.key H h g hm
     exact ⟨this.1, List.mem_append_left _ this.2⟩
 
 end Gp.Frag4
